@@ -437,7 +437,9 @@ static ares_status_t process_option(ares_sysconfig_t *sysconfig,
       status = ARES_EFORMERR;
       goto done;
     }
-    sysconfig->ndots = valint;
+    /* Valid range is 0-15, larger values are capped like resolv.conf(5)
+     * specifies. */
+    sysconfig->ndots = (valint > 15) ? 15 : valint;
   } else if (ares_streq(key, "retrans") || ares_streq(key, "timeout")) {
     if (!valint_ok || valint == 0) {
       status = ARES_EFORMERR;
